@@ -129,6 +129,7 @@ def stack_check(prog, sub_targets):
         delta = None
         local = []
         proto = None
+        proto_h = 0
         while work:
             i = work.pop()
             h, types = heights[i]
@@ -145,6 +146,7 @@ def stack_check(prog, sub_targets):
             nh, ntypes = h, types
             if m == "proto":
                 proto = (int(im[0]), int(im[1]))
+                proto_h = h
             if m == "callsub":
                 s = summary[labels[im[0]]]
                 if s is None:
@@ -157,6 +159,14 @@ def stack_check(prog, sub_targets):
             elif m in ("dig", "frame_dig"):
                 if m == "dig":
                     need(int(im[0]) + 1)
+                else:
+                    k_ = int(im[0])
+                    if proto is None:
+                        local.append(f"line {ln}: frame_dig without proto")
+                    elif k_ < -proto[0]:
+                        local.append(f"line {ln}: frame_dig {k_} reaches below the {proto[0]} argument cell(s) the routine owns")
+                    elif k_ >= h - proto_h:
+                        local.append(f"line {ln}: frame_dig {k_} reads above the top of the stack (frame holds {h - proto_h} value(s))")
                 nh = h + 1
                 ntypes = ntypes + ["a"]
             elif m in ("cover", "uncover"):
@@ -176,6 +186,13 @@ def stack_check(prog, sub_targets):
                 need(int(im[0]) + 1 if int(im[0]) > 0 else 1); nh = h - 1; ntypes = ["a"] * max(0, len(ntypes) - 1)
             elif m == "frame_bury":
                 need(1); nh = h - 1; ntypes = ["a"] * max(0, len(ntypes) - 1)
+                k_ = int(im[0])
+                if proto is None:
+                    local.append(f"line {ln}: frame_bury without proto")
+                elif k_ < -proto[0]:
+                    local.append(f"line {ln}: frame_bury {k_} writes below the {proto[0]} argument cell(s) the routine owns")
+                elif k_ >= (h - 1) - proto_h:
+                    local.append(f"line {ln}: frame_bury {k_} writes above the top of the stack")
             elif m == "dup":
                 need(1); nh = h + 1; ntypes = ntypes + [ntypes[-1] if ntypes else "a"]
             elif m == "dup2":
